@@ -1191,7 +1191,7 @@ def sampling_function(func_or_arr, domain, out_dtype=None):
                 # In-place evaluation
 
                 # This is a precaution in case out is not contiguous
-                with writable_array(out) as out_arr:
+                with writable_array(out, order='C') as out_arr:
                     # Flatten tensor axes to work on one tensor
                     # component (= scalar function) at a time
                     out_comps = out_arr.reshape((-1,) + scalar_out_shape)
